@@ -99,7 +99,7 @@ def handle (req impl : String) : String × String :=
           if ¬ primaryOk then
             let root := findRoot damaged es
             let eS := if es.isEmpty then "-" else ",".intercalate (es.map fun (n, o, g) => s!"{n}:{o}:{g}")
-            s!"recovery|{eS}|{(root.map toString).getD "none"}"
+            s!"recovery|{eS}|{(root.map fun r => s!"{r}.{rootGen es r}").getD "none"}"
           else
             -- the damaged table still parses: no reconstruction, trailer as written
             s!"primary|-|{_iroot}"
@@ -148,7 +148,7 @@ def handle (req impl : String) : String × String :=
           | some p => digitsVal (takeDigits (intact.drop (p + 6))).1
           | none => 0
         -- the catalog search of the recovery picked another object than the file's catalog
-        let wrongRoot : Bool := imode = "recovery" && _iroot ≠ toString rootNum
+        let wrongRoot : Bool := imode = "recovery" && (_iroot.splitOn ".").headD "" ≠ toString rootNum
         let classOf := fun (k : String) =>
           let n := ((k.splitOn ".").headD "").toNat?.getD 0
           if imode = "primary" then "damaged-table-accepted-without-reconstruction"
